@@ -77,7 +77,7 @@ class C10(Check):
     thorough_examples = 400
     chunk = 60
     rule = (
-        "[drawn in addition since rounds 13-15: the failing coroutine raises one of 7 exception types] "
+        "[round 16: batches of 12 / 23 / 101 elements with all schedules] [drawn in addition since rounds 13-15: the failing coroutine raises one of 7 exception types] "
         "cases: batches of 2..4 elements (call ids ascending, descending or strings and integers mixed in request order), each a call or notification to a coroutine that returns / raises a protocol error / raises an "
         "exception (0..2 suspension points each), a plain non-coroutine function, an async class based view method (with constructor context, and context-less using self as per-request scratch space) or an unknown method; "
         "optional middleware and generic error handler (identity / annotating / replacing, plus an optional handler for the protocol error's code) with 0..1 suspension points each; concurrent_batch on / off; dispatch called with a context object or with none. For every case ALL "
